@@ -3,7 +3,7 @@
    are arbitrary functions.  Times: [now], offset and max ages in ns, claim times
    in s; [instant], [round_s], [is_zero_time] in C01_Verifier; [id_token_valid],
    [id_token_margin], [at_hash_matches] in C01_proofs. *)
-From OIDC Require Import Lib Base64 C02_Jws C01_Verifier C02_Ground C01_spec C02_proofs C01_proofs.
+From OIDC Require Import Lib Base64 Base64_proofs C02_Jws C01_Verifier C02_Ground C01_spec C02_proofs C01_proofs C01_athash_proofs.
 
 (* rp.VerifyIDToken returns claims c only if c is the parsed payload unchanged,
    the token carries exactly one signature with an allowed algorithm verifying
@@ -67,10 +67,36 @@ Theorem C01_tokens_complete : forall verify H v ks t bytes c access_token now al
 Proof. exact tokens_complete. Qed.
 Print Assumptions C01_tokens_complete.
 
+(* at_hash covers EVERY byte of the access token, whatever its length: for hash
+   functions H returning byte strings, one ID token with an at_hash is accepted
+   together with two access tokens a1, a2 (of any length, sharing any prefix) only
+   if the left halves of their digests coincide ... *)
+Theorem C01_at_hash_binds_access_token : forall verify H v ks t m a1 a2 now c alg c2 alg2,
+  (forall hk s, all_bytesP (H hk s)) ->
+  verify_tokens verify H v ks t m a1 now = Accept c alg ->
+  verify_tokens verify H v ks t m a2 now = Accept c2 alg2 ->
+  c_at_hash c <> "" ->
+  c2 = c /\ alg2 = alg
+  /\ exists hk, hash_of_alg alg = Some hk /\ left_half (H hk a1) = left_half (H hk a2).
+Proof. exact at_hash_binds_access_token. Qed.
+Print Assumptions C01_at_hash_binds_access_token.
+
+(* ... and with any access token whose digest differs in the left half the same
+   ID token is refused with ErrAtHash *)
+Theorem C01_at_hash_other_token_rejected : forall verify H v ks t m a1 a2 now c alg hk,
+  (forall hk s, all_bytesP (H hk s)) ->
+  verify_tokens verify H v ks t m a1 now = Accept c alg ->
+  c_at_hash c <> "" -> hash_of_alg alg = Some hk ->
+  left_half (H hk a1) <> left_half (H hk a2) ->
+  verify_tokens verify H v ks t m a2 now = Reject EAtHash.
+Proof. exact at_hash_other_token_rejected. Qed.
+Print Assumptions C01_at_hash_other_token_rejected.
+
 (* the property predicate evaluated by the correspondence run (soundness at the
    weakest, completeness at the strongest end of the clock bracket [now0,now1])
    holds of the model for every input whose bracket is ordered and lies after
-   year 1 *)
+   year 1 - single calls and sequences of calls on ONE verifier / key set (each
+   answer of a sequence judged from its own call only) *)
 Theorem C01_spec_model : forall i, wf i -> spec i (model i) = true.
 Proof. exact spec_model. Qed.
 Print Assumptions C01_spec_model.
